@@ -84,7 +84,8 @@ type world struct {
 	backend     map[string]*backendPlan
 	uploadFault map[string]string // id -> "503x3" | "err"
 
-	flushed     int // lock-step backend: chunks handed to the agent so far
+	killedBy    os.Signal // a signal nobody was registered for ended the process
+	flushed     int       // lock-step backend: chunks handed to the agent so far
 	listEnds    []time.Duration
 	listTimes   []time.Duration
 	listStarted int
@@ -458,10 +459,14 @@ func (w *world) startAgent(args ...string) {
 
 // signal delivers sig to whatever the agent registered with signal.Notify.
 func (w *world) signal(sig os.Signal) bool {
-	if len(w.hooks.SignalChans) == 0 {
+	rcv := venv.Receivers(sig)
+	if len(rcv) == 0 {
+		// nobody listens: the default action of SIGINT / SIGTERM ends the process
+		w.killedBy = sig
+		vs.Exit(128 + int(sig.(syscall.Signal)))
 		return false
 	}
-	for _, c := range w.hooks.SignalChans {
+	for _, c := range rcv {
 		ch := c
 		// signal.Notify never blocks: it drops the signal if the channel is full
 		switch vs.Select(true, vs.SendCase(ch)(sig)) {
